@@ -594,6 +594,15 @@ def build_cases(ctx, tup):
                     for l in sub:
                         vals[l] = None if l in ("kw", "ov") else layer_forms(class_values(rng, "int"))[l]
                     cases.append({"option": name, "klass": klass, "layers": vals})
+                # a real value as a keyword and None ("not given") for the same option in config_overrides, and the reverse
+                cv = class_values(rng, rng.choice([k for k in CLASSES if k not in ("none", "object")]))
+                if cv is not None:
+                    f = layer_forms(cv)
+                    if f["kw"] is not None:
+                        cases.append({"option": name, "klass": klass, "layers": {"kw": f["kw"], "ov": None}})
+                        cases.append({"option": name, "klass": klass, "layers": {"kw": None, "ov": f["ov"]}})
+                        cases.append({"option": name, "klass": klass, "layers": {"env": f["env"], "kw": f["kw"], "ov": None}} if f["env"] is not None else
+                                     {"option": name, "klass": klass, "layers": {"kw": f["kw"], "ov": None}})
                 continue
             # one shared value for the four single-layer cases (clause 2), fresh values otherwise
             shared = object_value(rng, name, tup) if klass == "object" else class_values(rng, klass)
